@@ -305,7 +305,7 @@ VARIANTS = [
             "        self._num_violations += file.num_violations(filter_warning=False)\n", "R22b", None),
     Variant("dir-tmp-prs-unfiltered", LDIR,
             "        self.num_tmp_prs_errors += file.num_violations(\n            types=TMP_PRS_ERROR_TYPES,\n        )",
-            "        self.num_tmp_prs_errors += file.num_violations(\n            types=TMP_PRS_ERROR_TYPES,\n            filter_ignore=False,\n        )", "R22b", None),
+            "        self.num_tmp_prs_errors += file.num_violations(\n            types=TMP_PRS_ERROR_TYPES,\n            filter_ignore=False,\n        )", "R22a", None),
     Variant("dir-unfixable-count-warnings", LDIR,
             "            types=SQLLintError,\n            fixable=False,\n        )",
             "            types=SQLLintError,\n            fixable=False,\n            filter_warning=False,\n        )", "R22b", None),
